@@ -81,7 +81,8 @@ def oracle (lit : Str) (fileDir : List Str) (esm : Bool) (iso : IsoArgs) (fn : F
           match (swc.splitOn ":")[1]? >>= unhexCps, unhexCps (art.drop 4).toString with
           | some p, some a =>
             if resolveFrom fileDir p != some (splitOn pathSep a) then "bad:path:" ++ wrongTargetSig lit
-            else if !isRelativeSpecifier p then "bad:path:bare-specifier"
+            else if !isRelativeSpecifier p then
+              (if p.head? == some pathSep then "bad:path:absolute-specifier" else "bad:path:bare-specifier")
             else "ok"
           | _, _ => "bad:unparsable-impl-answer"
       else
